@@ -256,7 +256,7 @@ theorem exec1_replace {d : Disk} {t : Nat} {dst : Path} {c : Content}
     exec1 d (.replace t dst) = { d with files := (d.files.del (.tmp t)).set dst c } := by
   simp [exec1, h]
 
-theorem exec_saveOps (P : Params) (d0 d : Disk) (e : Nat) (s : Nat × Nat) :
+theorem exec_saveOps (P : Params) (d0 d : Disk) (e : Nat) (s : St) :
     exec d (saveOps P d0 e s) =
       { d with files :=
           (((((((d.files.set (.tmp (freshTmp d0.files)) .empty).set (.tmp (freshTmp d0.files)) (.model s.1)).set
@@ -274,7 +274,7 @@ theorem exec_saveOps (P : Params) (d0 d : Disk) (e : Nat) (s : Nat × Nat) :
     exec1_replace (t := freshTmp d0.files + 1) (c := .optim s.2)
       (by simp [Files.get_set, Files.get_del, Params.mpath])]
 
-theorem exec_saveOps_get (P : Params) (d0 d : Disk) (e : Nat) (s : Nat × Nat) (q : Path) :
+theorem exec_saveOps_get (P : Params) (d0 d : Disk) (e : Nat) (s : St) (q : Path) :
     (exec d (saveOps P d0 e s)).files.get q =
       if q = P.opath e then some (.optim s.2)
       else if q = P.mpath e then some (.model s.1)
@@ -292,7 +292,7 @@ theorem exec_saveOps_get (P : Params) (d0 d : Disk) (e : Nat) (s : Nat × Nat) (
         · simp [h4]
         · simp [h1, h2, h3, h4]
 
-theorem exec_saveOps_csv (P : Params) (d0 d : Disk) (e : Nat) (s : Nat × Nat) :
+theorem exec_saveOps_csv (P : Params) (d0 d : Disk) (e : Nat) (s : St) :
     (exec d (saveOps P d0 e s)).csv = d.csv := by
   rw [exec_saveOps]
 
@@ -411,7 +411,7 @@ theorem infoFirst_fixed (P : Params) (vals : List (Option Int)) (k : Nat) (d d' 
   simp [Quirks.fixed]
 
 theorem plan_safe {P : Params} {vals : List (Option Int)} {k : Nat} (hs : SafeAt P vals k) (d : Disk)
-    (s : Nat × Nat) :
+    (s : St) :
     planUpdate Quirks.fixed P vals k d s =
       .ok (saveOps P d (k + 1) s ++ histOps Quirks.fixed d (k + 1), cleanSet P vals k d) := by
   have h2 : infoFirst Quirks.fixed P vals k d = false := by
@@ -514,7 +514,7 @@ theorem SafeFmt.sep {P : Params} {vals : List (Option Int)} (hs : SafeFmt P vals
 
 /-- `save` followed by opening the history file: no history line, and only temp files and the two
 new paths are touched. -/
-theorem safe_save (P : Params) (d0 : Disk) (e : Nat) (s : Nat × Nat) :
+theorem safe_save (P : Params) (d0 : Disk) (e : Nat) (s : St) :
     ∀ op ∈ saveOps P d0 e s ++ [FsOp.openAppend],
       ¬ isHwrite op ∧ ∀ q, touches op q → (q = P.mpath e ∨ q = P.opath e ∨ ∃ t, q = Path.tmp t) := by
   intro op hop
@@ -589,7 +589,7 @@ theorem new_not_prot {P : Params} {vals : List (Option Int)} {k : Nat} (hk : k <
     · exact this.1 h.symm
     · exact this.2 h.symm
 
-theorem load_new_after_save (P : Params) (d0 d d' : Disk) (e : Nat) (s : Nat × Nat)
+theorem load_new_after_save (P : Params) (d0 d d' : Disk) (e : Nat) (s : St)
     (hd' : d'.files = (exec d (saveOps P d0 (e + 1) s)).files) :
     loadState P d' (e + 1) = some s := by
   simp only [loadState, hd', exec_saveOps_get, Params.mpath, Params.opath, Nat.add_one_ne_zero,
@@ -598,7 +598,7 @@ theorem load_new_after_save (P : Params) (d0 d d' : Disk) (e : Nat) (s : Nat × 
 /-- Everything before the data row is written: `save`, `open`, and (first update only) the header
 line. `k` epochs stay recorded, last and best stay loadable. -/
 theorem before_row {P : Params} {vals : List (Option Int)} {tr : Train} {d : Disk} {k : Nat}
-    (hrec : RecAt P vals tr d k) (hk : k < vals.length) (hs : SafeAt P vals k) (s : Nat × Nat) (i : Nat)
+    (hrec : RecAt P vals tr d k) (hk : k < vals.length) (hs : SafeAt P vals k) (s : St) (i : Nat)
     (hi : i < 8 + (histOps Quirks.fixed d (k + 1)).length) :
     RecAt P vals tr (exec d ((saveOps P d (k + 1) s ++ histOps Quirks.fixed d (k + 1)).take i)) k := by
   have hframe : ∀ j, RecAt P vals tr (exec d ((saveOps P d (k + 1) s ++ [FsOp.openAppend]).take j)) k := by
@@ -730,7 +730,7 @@ theorem step_main {P : Params} {vals : List (Option Int)} {tr : Train} {d : Disk
     exact after_row hrec hk hs hsep cl' hcl _
 
 theorem plan_of_safe {P : Params} {vals : List (Option Int)} {k : Nat} (hs : SafeAt P vals k) {d : Disk}
-    {s : Nat × Nat} {main : List FsOp} {cl : List Path}
+    {s : St} {main : List FsOp} {cl : List Path}
     (h : planUpdate Quirks.fixed P vals k d s = .ok (main, cl)) :
     main = saveOps P d (k + 1) s ++ histOps Quirks.fixed d (k + 1) ∧ cl = cleanSet P vals k d := by
   rw [plan_safe hs] at h
@@ -831,7 +831,7 @@ theorem exact_step {P : Params} (hi : Inj P) (hkeep : P.keepLB = true) {vals : L
 
 /-! ## keep everything: every recorded epoch stays loadable, crash or not -/
 
-theorem load_old_after_save {P : Params} (hi : Inj P) (d0 d d' : Disk) (k : Nat) (s : Nat × Nat)
+theorem load_old_after_save {P : Params} (hi : Inj P) (d0 d d' : Disk) (k : Nat) (s : St)
     (hd' : d'.files = (exec d (saveOps P d0 (k + 1) s)).files) (j : Nat) (hj : j ≤ k) :
     loadState P d' j = loadState P d j := by
   apply loadState_congr
@@ -896,7 +896,7 @@ theorem keepall_step {P : Params} (hi : Inj P) (hkeep : P.keepLB = false) {vals 
 
 /-- A checkpoint-first update never refuses. -/
 theorem c16_never_refuses {P : Params} {vals : List (Option Int)} {k : Nat} (hs : SafeAt P vals k)
-    (Q : Quirks) (d : Disk) (s : Nat × Nat) : ∃ main cl, planUpdate Q P vals k d s = .ok (main, cl) := by
+    (Q : Quirks) (d : Disk) (s : St) : ∃ main cl, planUpdate Q P vals k d s = .ok (main, cl) := by
   simp [planUpdate, hs.1]
 
 /-- **Every single mutating call of every update preserves recoverability.** `d` is any disk on
@@ -909,7 +909,7 @@ theorem c16_rec_step {P : Params} (vals : List (Option Int)) (tr : Train) (d : D
     (hrec : Rec P vals tr d) (k : Nat) (hk : recorded d = some k) (hlt : k < vals.length)
     (hs : SafeAt P vals k) (hsep : Sep P vals k)
     (main : List FsOp) (cl : List Path)
-    (hplan : planUpdate Quirks.fixed P vals k d (tr (k + 1) (U tr k)) = .ok (main, cl))
+    (hplan : planUpdate Quirks.fixed P vals k d (tr.step (k + 1) (U tr k)) = .ok (main, cl))
     (cl' : List Path) (hcl : ∀ p ∈ cl', p ∈ cl) (i : Nat) :
     Rec P vals tr (exec d ((opsOf main cl').take i)) := by
   obtain ⟨k', hk'⟩ := hrec
@@ -929,7 +929,7 @@ theorem c16_rec_step_torn {P : Params} (vals : List (Option Int)) (tr : Train) (
     (hrec : Rec P vals tr d) (k : Nat) (hk : recorded d = some k) (hlt : k < vals.length)
     (hs : SafeAt P vals k) (hsep : Sep P vals k)
     (main : List FsOp) (cl : List Path)
-    (hplan : planUpdate Quirks.fixed P vals k d (tr (k + 1) (U tr k)) = .ok (main, cl))
+    (hplan : planUpdate Quirks.fixed P vals k d (tr.step (k + 1) (U tr k)) = .ok (main, cl))
     (cl' : List Path) (hcl : ∀ p ∈ cl', p ∈ cl) (i : Nat)
     (hat : ∀ e, (opsOf main cl')[i]? ≠ some (.hwrite (.row e))) :
     Rec P vals tr (tornDisk tear d (opsOf main cl') i) := by
@@ -958,7 +958,7 @@ theorem c16_rec_full {P : Params} (vals : List (Option Int)) (tr : Train) (d : D
     (k : Nat) (hrec : RecAt P vals tr d k) (hlt : k < vals.length)
     (hs : SafeAt P vals k) (hsep : Sep P vals k)
     (main : List FsOp) (cl : List Path)
-    (hplan : planUpdate Quirks.fixed P vals k d (tr (k + 1) (U tr k)) = .ok (main, cl))
+    (hplan : planUpdate Quirks.fixed P vals k d (tr.step (k + 1) (U tr k)) = .ok (main, cl))
     (cl' : List Path) (hcl : ∀ p ∈ cl', p ∈ cl) :
     RecAt P vals tr (exec d (opsOf main cl')) (k + 1) := by
   obtain ⟨hm, hc⟩ := plan_of_safe hs hplan
@@ -980,7 +980,7 @@ theorem updateFull_of_RecAt {P : Params} {vals : List (Option Int)} (hs : SafeFm
     {d : Disk} {k : Nat} (h : RecAt P vals tr d k) (hlt : k < vals.length) :
     ∃ d', updateFull Quirks.fixed P vals tr k (U tr k) d = .ok (d', U tr (k + 1)) ∧
       RecAt P vals tr d' (k + 1) := by
-  have hp := plan_safe (hs k hlt) d (tr (k + 1) (U tr k))
+  have hp := plan_safe (hs k hlt) d (tr.step (k + 1) (U tr k))
   refine ⟨_, ?_, c16_rec_full vals tr d k h hlt (hs k hlt) (hs.sep k (by omega)) _ _ hp _ (fun _ h => h)⟩
   simp [updateFull, hp, U]
 
@@ -1007,7 +1007,7 @@ theorem runLoop_of_RecAt {P : Params} {vals : List (Option Int)} (hs : SafeFmt P
 theorem updateCrashed_rec {P : Params} {vals : List (Option Int)} (hs : SafeFmt P vals) {tr : Train}
     {d : Disk} {k : Nat} (h : RecAt P vals tr d k) (hlt : k < vals.length) (i : Nat) (torn : Bool) :
     Rec P vals tr (updateCrashed Quirks.fixed P vals tr k (U tr k) d i torn) := by
-  have hp := plan_safe (hs k hlt) d (tr (k + 1) (U tr k))
+  have hp := plan_safe (hs k hlt) d (tr.step (k + 1) (U tr k))
   simp only [updateCrashed, hp]
   obtain ⟨k', hk'⟩ := c16_rec_step vals tr d h.rec k h.1 hlt (hs k hlt) (hs.sep k (by omega)) _ _ hp _
     (fun _ h => h) i
@@ -1116,7 +1116,7 @@ last and best epoch before, it does so afterwards. -/
 theorem c16_exact_step {P : Params} (hi : Inj P) (hkeep : P.keepLB = true) (vals : List (Option Int))
     (tr : Train) (d : Disk) (k : Nat) (hex : ExactLB P vals d k) (hk : k < vals.length)
     (main : List FsOp) (cl : List Path)
-    (hplan : planUpdate Quirks.fixed P vals k d (tr (k + 1) (U tr k)) = .ok (main, cl))
+    (hplan : planUpdate Quirks.fixed P vals k d (tr.step (k + 1) (U tr k)) = .ok (main, cl))
     (cl' : List Path) (hcl : ∀ p, p ∈ cl' ↔ p ∈ cl) :
     ExactLB P vals (exec d (opsOf main cl')) (k + 1) :=
   exact_step hi hkeep hex hk (show planUpdate Quirks.fixed P vals k d (U tr (k + 1)) = _ from hplan) cl' hcl
@@ -1135,12 +1135,12 @@ theorem runLoop_exact {P : Params} (hi : Inj P) (hkeep : P.keepLB = true) {vals 
   | zero => intro k d h he _; exact ⟨d, rfl, h, he⟩
   | succ f ih =>
     intro k d h he hle
-    have hp := plan_safe (hi.safeAt vals k) d (tr (k + 1) (U tr k))
+    have hp := plan_safe (hi.safeAt vals k) d (tr.step (k + 1) (U tr k))
     have h1 := c16_rec_full vals tr d k h (by omega) (hi.safeAt vals k) (hi.sep vals k) _ _ hp _ (fun _ h => h)
     have he1 := c16_exact_step hi hkeep vals tr d k he (by omega) _ _ hp _ (fun _ => Iff.rfl)
     obtain ⟨d2, hr, h2, he2⟩ := ih (k + 1) _ h1 he1 (by omega)
     have hu : updateFull Quirks.fixed P vals tr k (U tr k) d =
-        .ok (exec d (opsOf (saveOps P d (k + 1) (tr (k + 1) (U tr k)) ++ histOps Quirks.fixed d (k + 1))
+        .ok (exec d (opsOf (saveOps P d (k + 1) (tr.step (k + 1) (U tr k)) ++ histOps Quirks.fixed d (k + 1))
           (cleanSet P vals k d)), U tr (k + 1)) := by
       simp [updateFull, hp, U]
     have e : k + 1 + f = k + (f + 1) := by omega
@@ -1166,7 +1166,7 @@ theorem c16_exact_nocrash {P : Params} (hi : Inj P) (hkeep : P.keepLB = true) (v
 theorem c16_keepall_step {P : Params} (hi : Inj P) (hkeep : P.keepLB = false) (vals : List (Option Int))
     (tr : Train) (d : Disk) (k : Nat) (h : RecAll P vals tr d k) (hlt : k < vals.length)
     (main : List FsOp) (cl : List Path)
-    (hplan : planUpdate Quirks.fixed P vals k d (tr (k + 1) (U tr k)) = .ok (main, cl)) (i : Nat) :
+    (hplan : planUpdate Quirks.fixed P vals k d (tr.step (k + 1) (U tr k)) = .ok (main, cl)) (i : Nat) :
     ∃ k', RecAll P vals tr (exec d ((opsOf main cl).take i)) k' := by
   obtain ⟨hm, hc⟩ := plan_of_safe (hi.safeAt vals k) hplan
   subst hm; subst hc
@@ -1180,9 +1180,9 @@ theorem c16_keepall_step {P : Params} (hi : Inj P) (hkeep : P.keepLB = false) (v
 
 theorem keepall_full {P : Params} (hi : Inj P) (hkeep : P.keepLB = false) {vals : List (Option Int)}
     {tr : Train} {d : Disk} {k : Nat} (h : RecAll P vals tr d k) (hlt : k < vals.length) :
-    RecAll P vals tr (exec d (opsOf (saveOps P d (k + 1) (tr (k + 1) (U tr k)) ++
+    RecAll P vals tr (exec d (opsOf (saveOps P d (k + 1) (tr.step (k + 1) (U tr k)) ++
       histOps Quirks.fixed d (k + 1)) (cleanSet P vals k d))) (k + 1) := by
-  have hp := plan_safe (hi.safeAt vals k) d (tr (k + 1) (U tr k))
+  have hp := plan_safe (hi.safeAt vals k) d (tr.step (k + 1) (U tr k))
   have h1 := c16_rec_full vals tr d k h.1 hlt (hi.safeAt vals k) (hi.sep vals k) _ _ hp _ (fun _ h => h)
   refine ⟨h1, ?_⟩
   have b := keepall_step (vals := vals) hi hkeep h.2
@@ -1202,10 +1202,10 @@ theorem runLoop_keepall {P : Params} (hi : Inj P) (hkeep : P.keepLB = false) {va
   | zero => intro k d h _; exact ⟨d, rfl, h⟩
   | succ f ih =>
     intro k d h hle
-    have hp := plan_safe (hi.safeAt vals k) d (tr (k + 1) (U tr k))
+    have hp := plan_safe (hi.safeAt vals k) d (tr.step (k + 1) (U tr k))
     obtain ⟨d2, hr, h2⟩ := ih (k + 1) _ (keepall_full hi hkeep h (by omega)) (by omega)
     have hu : updateFull Quirks.fixed P vals tr k (U tr k) d =
-        .ok (exec d (opsOf (saveOps P d (k + 1) (tr (k + 1) (U tr k)) ++ histOps Quirks.fixed d (k + 1))
+        .ok (exec d (opsOf (saveOps P d (k + 1) (tr.step (k + 1) (U tr k)) ++ histOps Quirks.fixed d (k + 1))
           (cleanSet P vals k d)), U tr (k + 1)) := by
       simp [updateFull, hp, U]
     have e : k + 1 + f = k + (f + 1) := by omega
@@ -1251,7 +1251,7 @@ theorem c16_keepall_loadable {P : Params} (hi : Inj P) (hkeep : P.keepLB = false
     split
     · rename_i hlt
       have hp := plan_safe (hi.safeAt vals (k + min j (vals.length - k))) d'
-        (tr (k + min j (vals.length - k) + 1) (U tr (k + min j (vals.length - k))))
+        (tr.step (k + min j (vals.length - k) + 1) (U tr (k + min j (vals.length - k))))
       obtain ⟨k', hk'⟩ := c16_keepall_step hi hkeep vals tr d' _ h' hlt _ _ hp i
       simp only [updateCrashed, hp]
       cases torn with
@@ -1259,7 +1259,7 @@ theorem c16_keepall_loadable {P : Params} (hi : Inj P) (hkeep : P.keepLB = false
       | true =>
         simp only [if_true]
         rcases tornDisk_tearW d' (opsOf (saveOps P d' (k + min j (vals.length - k) + 1)
-            (tr (k + min j (vals.length - k) + 1) (U tr (k + min j (vals.length - k)))) ++
+            (tr.step (k + min j (vals.length - k) + 1) (U tr (k + min j (vals.length - k)))) ++
             histOps Quirks.fixed d' (k + min j (vals.length - k) + 1))
             (cleanSet P vals (k + min j (vals.length - k)) d')) i with h'' | ⟨t, h''⟩ <;> rw [h'']
         · exact ih _ k' hk'
